@@ -1,9 +1,14 @@
 import Nv.Model.C05
+import Nv.Spec.C05
 import Nv.Gen.C05
 /-! C05 — obligations on the definitions regenerated from /repo's current source. -/
 namespace Nv.C05
 theorem tie_facts : Nv.Gen.C05.facts = Facts.expected := by decide
 theorem tie_cfg_proved : Proved Nv.Gen.C05.cfg := by decide
+
+/-- the named atomicity assumption of the concurrency theorems holds for the facts regenerated from the source:
+    Lock + deferred Unlock first in every public method of the in-memory cache; a consuming read is one GETDEL -/
+theorem tie_atomic_calls : AtomicCalls Nv.Gen.C05.facts := ⟨by decide, by decide⟩
 
 /-- The translated kernel `deadline(ttl)` (BitVec 64, Go semantics; `now()` is the parameter `now`) and the
     comparison `now() > node.deadline` of `get()` are what the model calls `deadline` / `expired`, for every
